@@ -49,6 +49,7 @@ type Fx struct {
 	loadKey       string
 	noGuard       bool
 	inAtomic      bool
+	onceStack     []string // addresses of the sync.Once values whose Do callbacks are being executed
 	loadFromEntry bool
 	pathMode      bool  // explore paths separately (flag paths)
 	prefix        []int // decisions to replay
